@@ -18,7 +18,7 @@ func isTimeTime(t types.Type) bool {
 }
 
 func checkC17(c *Ctx) {
-	c.Explanation = "Decides a non-interference statement: the only way the handler's start time may influence the state that the time computation reads is through the week quantiser (the function that maps an instant to 00:00:00 UTC of the Sunday on or before it).  Source = the startTime parameter of handler.New; sanitiser = results of the quantiser; sinks = every Handler field stored by New.  Any flow from the source to a sink that bypasses the quantiser makes the reported times depend on where in the week the start time lies and is reported.  Also checks that the quantiser really truncates to midnight UTC of a Sunday (time.Date(...,0,0,0,0,UTC) after a loop that stops on Weekday()==Sunday) and that all four start-of-week fields are derived from it.  (R4) every successful Glonass result is the stored start of week plus the day and millisecond offsets of the timestamp: no special case re-bases a time on the handler's initial day state."
+	c.Explanation = "Decides a non-interference statement: the only way the handler's start time may influence the state that the time computation reads is through the week quantiser (the function that maps an instant to 00:00:00 UTC of the Sunday on or before it).  Source = the startTime parameter of handler.New; sanitiser = results of the quantiser; sinks = every Handler field stored by New.  Any flow from the source to a sink that bypasses the quantiser makes the reported times depend on where in the week the start time lies and is reported.  Also checks that the quantiser really truncates to midnight UTC of a Sunday (time.Date(...,0,0,0,0,UTC) after a loop that stops on Weekday()==Sunday) and that all four start-of-week fields are derived from it.  (R4) every successful Glonass result is the stored start of week plus the day and millisecond offsets of the timestamp: no special case re-bases a time on the handler's initial day state. (R6) from handler.New back to the entry points every caller hands on its own start-time parameter (or time.Now()) unchanged."
 	c.NotDecided = "that two instants of the same constellation week always quantise to the same Sunday once the leap-second shift is applied (calendar arithmetic; exercised by TestGetLastSundayUTC); the conversion arithmetic itself (C06)."
 	P := c.P
 	newFn := P.Func("rtcm/handler", "New")
@@ -202,6 +202,11 @@ func checkC17(c *Ctx) {
 	// R4: beyond the quantised week state, a reported Glonass time depends on the timestamp only
 	// (no special case that re-bases it on the handler's initial day state)
 	ruleGlonassResultShape(c, "C17-R4")
+	// ---- R6 the instant that reaches New is the caller's start time itself: on the way from an
+	// entry point to New it is only handed on (a caller that rounds or shifts it first moves start
+	// times near the week boundary into the neighbouring week before the quantiser sees them)
+	ruleStartTimeHandedOn(c, "C17-R6", newFn)
+	c.MinInstances("C17-R6", 2)
 	c.MinInstances("C17-R4", 1)
 	// R5: the week state is seeded on each constellation's own fixed-offset time scale (shared with C06-S7)
 	checkSeedTimeBase(c, "C17-R5")
@@ -210,4 +215,60 @@ func checkC17(c *Ctx) {
 	c.MinInstances("C17-R2", 2)
 	c.MinInstances("C17-R3", 4)
 	_ = fmt.Sprint
+}
+
+// ruleStartTimeHandedOn (C17-R6): at every call of handler.New in non-test module code the start-time
+// argument is time.Now(), or a parameter of the calling function, unchanged — and then the same holds
+// for that parameter at every call of the calling function, up to the functions nobody in the module
+// calls (the exported entry points and main).
+func ruleStartTimeHandedOn(c *Ctx, rule string, newFn *ssa.Function) {
+	P := c.P
+	type site struct {
+		fn  *ssa.Function
+		idx int
+	}
+	seen := map[site]bool{}
+	var check func(callee *ssa.Function, idx int, depth int)
+	check = func(callee *ssa.Function, idx int, depth int) {
+		if seen[site{callee, idx}] || depth > 6 {
+			return
+		}
+		seen[site{callee, idx}] = true
+		for _, g := range P.ModFuncs() {
+			eachInstr(g, func(ins ssa.Instruction) {
+				ci, ok := ins.(ssa.CallInstruction)
+				if !ok || ci.Common().StaticCallee() != callee || idx >= len(ci.Common().Args) {
+					return
+				}
+				a := ci.Common().Args[idx]
+				label := fmt.Sprintf("start-time-handed-on(%s→%s)", P.FnKey(g), callee.Name())
+				switch x := a.(type) {
+				case *ssa.Parameter:
+					c.OK(rule, label, ins.Pos(), "the caller's own start-time parameter, unchanged")
+					for i, prm := range g.Params {
+						if prm == x {
+							check(g, i, depth+1)
+						}
+					}
+					return
+				case *ssa.Call:
+					if calleeFullName(x.Call.StaticCallee()) == "time.Now" {
+						c.OK(rule, label, ins.Pos(), "time.Now()")
+						return
+					}
+				}
+				// captured by a closure that starts the pipeline: the free variable's binding
+				if fv, ok := a.(*ssa.FreeVar); ok {
+					c.Fail(rule, label, ins.Pos(), "unproven", "the start time reaches "+callee.Name()+" through a captured variable ("+fv.Name()+"); not followed")
+					return
+				}
+				if g.Name() == "main" && g.Signature.Recv() == nil {
+					c.OK(rule, label, ins.Pos(), "chosen by main (command line or clock)")
+					return
+				}
+				c.Fail(rule, label, ins.Pos(), "refuted", P.FnKey(g)+" does not hand its start time on unchanged: the value given to "+callee.Name()+" is computed from it (rounded, shifted or converted), so a start time near a week boundary can land in the neighbouring week")
+			})
+		}
+	}
+	check(newFn, 0, 0)
 }
